@@ -21,7 +21,7 @@ BOUNDS = {
     "thorough": "quick + abct, abcdt, abtn, abu w3, d3/abt generated, diamonds generated, conn2/abcd generated, conn2s/abc",
 }
 QUICK = ["abc/explicit", "abt/explicit", "abc/generated", "abc/root", "diamond/explicit", "d3/abc/explicit", "conn2/abc/generated", "mix3/abtn/explicit", "mix3/abtu/generated", "conn3/abc/generated", "empty/ab", "wide/1",
-         "alt/mix3+abt+explicit", "alt/mix3b+abt+explicit", "altg/mix3+abtu+generated", "at/generated", "au/generated"]
+         "alt/mix3+abt+explicit", "alt/mix3b+abt+explicit", "altg/mix3+abtu+generated", "at/generated", "au/generated", "ab/varnamed"]
 THOROUGH = QUICK + ["abct/explicit", "abcdt/explicit", "abtn/explicit", "abu/explicit/w3", "d3/abt/generated", "diamond/generated",
                     "conn2/abcd/generated", "conn2s/abc/generated", "abt/generated", "abcu/explicit"]
 
